@@ -47,11 +47,10 @@ NOT proved (named limits):
   (proved sound) and compared with the python filter `corpus.analyse` on the corpus.  The full
   statement is false of pest (its source documents `PEEK_ALL*` on an empty stack as a blind spot),
   which is why the property restricts the second sentence to well-founded grammars.
-* The analysis is conservative in two places: a sequence flagged `INHERITED` is assumed to run the
+* The analysis is conservative in one place: a sequence flagged `INHERITED` is assumed to run the
   implicit skip (so `WHITESPACE = { "a"? ~ "b" }` is reported as recursive through the skip although
-  the generated reference disables it), and every repetition body must be non-nullable even when the
-  repetition is bounded (`e{,3}` with nullable `e` terminates but is outside the hypotheses; with the
-  default options the optimizer has already unrolled counted repetitions).
+  the generated reference disables it).  Bounded repetitions (`RepeatMinMax`, e.g. `e{,3}`) may have
+  a nullable body: `Progressing` only constrains unbounded repetitions and `AtomicRepeat`.
 -/
 import PestTyped.Lemmas.Termination
 import PestTyped.Model.Gen
@@ -191,6 +190,8 @@ theorem C11_diverges_example (G : NodeGrammar) (uni : Uni) (inh : Bool) (i : Inp
 
 /-- The diverging node violates exactly the `Progressing` hypothesis. -/
 example : repsOK (fun _ => false) (.rep .zero 0 none (.opt (.str ['a']))) = false := by decide
+/-- … while the bounded form `(("a")?){,3}` satisfies it (and is covered by the theorem). -/
+example : repsOK (fun _ => false) (.rep .zero 0 (some 3) (.opt (.str ['a']))) = true := by decide
 
 /-- `a = { a ~ "x" }` (rule 1 refers to itself at its own start). -/
 def c11LeftRecDef : RuleDef :=
